@@ -137,6 +137,8 @@ func GenExpr(r *Rand) Expr {
 		{".a + " + n, "construct", false, false},
 		{".a * " + n, "construct", false, false},
 		{".a % 3", "construct", false, false},
+		{".d[] | split_doc | [., document_index]", "splitdoc", false, false},
+		{".e[] | split_doc | .piece = document_index", "splitdoc", false, false},
 		{".e[].v = .a", "assign", true, true},
 		{".d[] = .a", "assign", true, true},
 		{".c[] = .id", "assign", true, true},
